@@ -40,6 +40,7 @@ def main():
                         except Exception: pass
                 out[f"{pid}/seed{s}"] = {"exit": p.returncode, "s": round(time.time() - t0, 1), "violation": any(l.startswith("VIOLATION") for l in lines),
                                         "no_failing_input": any("no-failing-input-found" in l for l in lines), "what": (what or "")[:300]}
+                if p.returncode not in (0, 1): print(f"{pid} seed {s}: INFRASTRUCTURE exit {p.returncode}: {txt[-600:]}", flush=True)
                 print(f"{pid} seed {s}: exit {p.returncode} {'VIOLATION' if out[f'{pid}/seed{s}']['violation'] else 'pass'} {'(no-failing-input-found)' if out[f'{pid}/seed{s}']['no_failing_input'] else ''} {what[:200]}", flush=True)
     finally:
         sh(["git", "-C", "/repo", "checkout", "--", "."])
